@@ -123,6 +123,7 @@ impl GraphRunner for Graph {
             if self.cancel_token.is_canceled() {
                 break;
             }
+            let activity_before = crate::circular_buffer::activity();
             for (n, b) in self.blocks.iter_mut().enumerate() {
                 if eof[n] {
                     continue;
@@ -167,6 +168,14 @@ impl GraphRunner for Graph {
                 if eof[n] {
                     info!("{} EOF, exiting", name);
                 }
+            }
+            if crate::circular_buffer::activity() != activity_before {
+                // Some block moved data in this pass, whatever status it
+                // returned (a source returns EOF from the call that emitted its
+                // last samples; many blocks report a wait after moving data).
+                // A block earlier in the list may be able to continue.
+                done = false;
+                all_idle = false;
             }
             if done {
                 break;
